@@ -30,9 +30,10 @@ EXTRA_TARGETS = ()
 
 
 def regenerate(ctx):
-    changed = algebra_dispatch.regenerate()
-    return [('extract(operator/functional overloads -> Gen/AlgebraDispatch.lean)', True,
-             'regenerated' if changed else 'unchanged')]
+    changed, asserts = algebra_dispatch.regenerate()
+    return [('extract(overload guard trees, delegations, merge rules, is_linear and _call tables '
+             '-> Gen/AlgebraDispatch.lean)', True, 'regenerated' if changed else 'unchanged')] + \
+        [(n, bool(ok), d) for n, ok, d in asserts]
 
 
 RULE = ('random typed expression trees (depth <= 6 quick / <= 9 thorough) plus the systematic '
@@ -1006,6 +1007,248 @@ def targeted_cases(ctx, pool, cplx):
                        'x': rand_point(rng, n, cplx), 'stream': 'targeted'}
 
 
+# ---------------------------------------------------------------------------
+# mixed-field trees (operators between real and complex spaces): ORACLE ONLY.
+# The Lean model has one field per tree; these cases are checked against the documented table
+# applied to the real leaves and against the typing rules, not against the model.
+
+def mixed_pool():
+    import odl
+    R, C = odl.rn(3), odl.cn(3)
+    mr = np.array([[1.0, 2.0, 0.0], [0.0, 1.0, -1.0], [2.0, 0.0, 1.0]])
+    mc = np.array([[1, 1j, 0], [0, 2, -1j], [1 + 1j, 0, 1]])
+    leaves = [
+        ('RealPart', odl.RealPart(C)), ('ImagPart', odl.ImagPart(C)),
+        ('ComplexEmbedding', odl.ComplexEmbedding(R)),
+        ('E.Re', odl.ComplexEmbedding(R) * odl.RealPart(C)),
+        ('MatR', odl.MatrixOperator(mr, domain=R, range=R)),
+        ('MatC', odl.MatrixOperator(mc, domain=C, range=C)),
+        ('Pow2R', odl.PowerOperator(R, 2)), ('Pow2C', odl.PowerOperator(C, 2)),
+        ('L2sqR', odl.solvers.L2NormSquared(R)), ('L2sqC', odl.solvers.L2NormSquared(C)),
+        ('InnerC', odl.InnerProductOperator(C.element([1, 1j, -1]))),
+    ]
+    return {'R': R, 'C': C}, leaves
+
+
+def m_show(ast, leaves):
+    k = ast[0]
+    if k == 'L':
+        return leaves[ast[1]][0]
+    if k == 'neg':
+        return '(-{})'.format(m_show(ast[1], leaves))
+    if k in ('mul', 'add', 'sub'):
+        return '({} {} {})'.format(m_show(ast[1], leaves), {'mul': '*', 'add': '+', 'sub': '-'}[k],
+                                   m_show(ast[2], leaves))
+    arg = repr(ast[2]) if k.startswith('s.') else '{}{}'.format(ast[2][0], list(ast[2][1]))
+    t = {'lmul': '({1} * {0})', 'rmul': '({0} * {1})', 'div': '({0} / {1})', 'add': '({0} + {1})',
+         'rsub': '({1} - {0})'}[k.split('.')[1]]
+    return t.format(m_show(ast[1], leaves), arg)
+
+
+def m_type(ast, sp, leaves):
+    """Typing rules of the documented table with the real ODL spaces: (domain, range, fn) or
+    None; `fn` = the result is a Functional (only used for `op + scalar`, which is documented
+    for LinearSpace ranges and for Functionals; `f * A` is a Functional on A.domain only if
+    the field of A.domain is f.range)."""
+    import odl
+    k = ast[0]
+    if k == 'L':
+        op = leaves[ast[1]][1]
+        return (op.domain, op.range, isinstance(op, odl.solvers.Functional))
+    a = m_type(ast[1], sp, leaves)
+    if a is None:
+        return None
+    d, r, fn = a
+    isf = isinstance(r, odl.set.sets.Field)
+    if k == 'neg':
+        return a
+    if k in ('mul', 'add', 'sub'):
+        b = m_type(ast[2], sp, leaves)
+        if b is None:
+            return None
+        if k == 'mul':
+            if b[1] != d:
+                return None
+            bf = b[0] if isinstance(b[0], odl.set.sets.Field) else b[0].field
+            return (b[0], r, fn and bf == r)
+        return (d, r, fn and b[2]) if (b[0] == d and b[1] == r) else None
+    if k.startswith('s.'):
+        s_ = ast[2]
+        rf = r if isf else r.field
+        df = d if isinstance(d, odl.set.sets.Field) else d.field
+        if k == 's.lmul':
+            return a if s_ in rf else None
+        if k == 's.rmul':
+            return a if s_ in df else None
+        if k == 's.div':
+            return a if (s_ in df and s_ != 0) else None
+        return a if (s_ in rf and (fn or not isf)) else None        # s.add / s.rsub
+    v = sp[ast[2][0]]
+    if k == 'v.lmul':
+        if v == r:
+            return (d, r, False)
+        return (d, v, False) if (isf and v.field == r) else None
+    if k == 'v.rmul':
+        return a if v == d else None
+    return (d, r, False) if v == r else None              # v.add / v.rsub
+
+
+def m_build(ast, sp, leaves):
+    k = ast[0]
+    if k == 'L':
+        return leaves[ast[1]][1]
+    a = m_build(ast[1], sp, leaves)
+    if k == 'neg':
+        return -a
+    if k in ('mul', 'add', 'sub'):
+        b = m_build(ast[2], sp, leaves)
+        return a * b if k == 'mul' else (a + b if k == 'add' else a - b)
+    o = ast[2] if k.startswith('s.') else sp[ast[2][0]].element(list(ast[2][1]))
+    o_ = k.split('.')[1]
+    return {'lmul': lambda: o * a, 'rmul': lambda: a * o, 'div': lambda: a / o,
+            'add': lambda: a + o, 'rsub': lambda: o - a}[o_]()
+
+
+def m_ref(ast, sp, leaves, x):
+    """documented table on the real leaves"""
+    k = ast[0]
+
+    def ev(t, y):
+        return m_ref(t, sp, leaves, y)
+    if k == 'L':
+        return leaves[ast[1]][1](x)
+    if k == 'neg':
+        return -ev(ast[1], x)
+    if k == 'mul':
+        return ev(ast[1], ev(ast[2], x))
+    if k == 'add':
+        return ev(ast[1], x) + ev(ast[2], x)
+    if k == 'sub':
+        return ev(ast[1], x) - ev(ast[2], x)
+    o = ast[2] if k.startswith('s.') else sp[ast[2][0]].element(list(ast[2][1]))
+    o_ = k.split('.')[1]
+    if o_ == 'lmul':
+        return o * ev(ast[1], x)
+    if o_ == 'rmul':
+        return ev(ast[1], o * x)
+    if o_ == 'div':
+        return ev(ast[1], x / o)
+    if o_ == 'add':
+        return ev(ast[1], x) + o
+    return o - ev(ast[1], x)
+
+
+def m_forms(rng, inner, ty, sp, leaves):
+    out = [('neg', inner)]
+    for s_ in (2.0, 1j, -1, 0, 0.5 - 1j):
+        for k in ('s.lmul', 's.rmul', 's.div', 's.add', 's.rsub'):
+            if not (k == 's.div' and s_ == 0):
+                out.append((k, inner, s_))
+    for key in ('R', 'C'):
+        for k in ('v.lmul', 'v.rmul', 'v.add', 'v.rsub'):
+            out.append((k, inner, (key, tuple(rand_vec(rng, 3, key == 'C')))))
+    for j in range(len(leaves)):
+        o = ('L', j)
+        out += [('mul', inner, o), ('mul', o, inner), ('add', inner, o), ('sub', o, inner)]
+    return out
+
+
+def mixed_cases(ctx, sp, leaves):
+    rng = ctx.rng
+    keep = 0.08 if ctx.quick else 0.5
+    for i in range(len(leaves)):
+        base = ('L', i)
+        for one in m_forms(rng, base, m_type(base, sp, leaves), sp, leaves):
+            t1 = m_type(one, sp, leaves)
+            yield one
+            if t1 is None:
+                continue
+            for two in m_forms(rng, one, t1, sp, leaves):
+                if rng.random() < keep:
+                    yield two
+
+
+def run_mixed_case(ast, sp, leaves, xs):
+    """problems of one mixed-field case (oracle on the real code)"""
+    import odl
+    problems = []
+    ty = m_type(ast, sp, leaves)
+    try:
+        with np.errstate(all='ignore'):
+            op = m_build(ast, sp, leaves)
+        if not isinstance(op, odl.Operator):
+            raise TypeError('result is not an Operator')
+    except Exception as e:  # noqa
+        if ty is not None:
+            problems.append('well-typed expression raises {}: {}'.format(
+                type(e).__name__, str(e)[:140]))
+        return problems, ty, None
+    if ty is None:
+        return problems, ty, op
+    if (op.domain, op.range) != ty[:2]:
+        problems.append('domain/range {!r}->{!r} but the expression implies {!r}->{!r}'.format(
+            op.domain, op.range, ty[0], ty[1]))
+        return problems, ty, op
+    if ty[0].is_real:
+        xs = [complex(v).real for v in xs]
+    x = ty[0].element(xs[:ty[0].size])
+    try:
+        with np.errstate(all='ignore'):
+            ref = [exact(v) for v in flat(m_ref(ast, sp, leaves, x))]
+    except Exception as e:  # noqa
+        problems.append('reference interpreter raises {}: {}'.format(type(e).__name__, str(e)[:100]))
+        return problems, ty, op
+    if None in ref:
+        return problems, ty, op
+    ex = bits_exact(ref) <= EXACT_BITS
+    try:
+        with np.errstate(all='ignore'):
+            val = [exact(v) for v in flat(op(x))]
+        if not same(val, ref, ex):
+            problems.append('out-of-place value {} differs from the documented table value {}'.format(
+                showv(val), showv(ref)))
+    except Exception as e:  # noqa
+        problems.append('evaluation raises {}: {}'.format(type(e).__name__, str(e)[:140]))
+    if not isinstance(op.range, odl.set.sets.Field):
+        try:
+            out = op.range.element()
+            out.data[...] = np.nan
+            with np.errstate(all='ignore'):
+                op(x, out=out)
+            inp = [exact(v) for v in flat(out)]
+            if not same(inp, ref, ex):
+                problems.append('in-place (out=) value {} differs from the documented table value '
+                                '{}'.format(showv(inp), showv(ref)))
+        except Exception as e:  # noqa
+            problems.append('in-place evaluation raises {}: {}'.format(type(e).__name__, str(e)[:140]))
+    return problems, ty, op
+
+
+def mixed_stream(ctx, count=True, deadline=None):
+    import time
+    sp, leaves = mixed_pool()
+    for ast in mixed_cases(ctx, sp, leaves):
+        xs = rand_point(ctx.rng, 3, True)
+        problems, ty, op = run_mixed_case(ast, sp, leaves, xs)
+        desc = {'expr': m_show(ast, leaves), 'x': [str(v) for v in xs], 'field': 'mixed',
+                'stream': 'mixed', 'ast': repr(ast)}
+        for p in problems:
+            cls = problem_class(p, None, None, None)
+            PENDING.append((size(ast), len(PENDING),
+                            '{} mixed-field expr root={} leaves={}'.format(
+                                cls, ast[0], '+'.join(sorted({leaves[i][0] for i in used_leaves(ast)}))),
+                            '{} :: {}'.format(desc['expr'], p)[:700], desc))
+        if count:
+            ctx.case(('mixed', type(op).__name__, ast[0]) if (op is not None and ty is not None)
+                     else None)
+            ctx.hit('stream/mixed')
+            ctx.hit('mixed/' + ('well-typed' if ty is not None else 'ill-typed'))
+        else:
+            ctx.evaluations += 1
+        if deadline is not None and (PENDING or time.time() > deadline):
+            return
+
+
 def line_of(case, pool):
     """Only the leaves the expression uses go on the wire (renumbered 0..k-1; the answer's
     tree is renumbered back in `process`)."""
@@ -1250,6 +1493,7 @@ def _run(ctx):
         stream(ctx, cplx, seed,
                lambda pool: systematic_cases(ctx, pool, cplx, kinds_q if quick else kinds_t))
         stream(ctx, cplx, seed, lambda pool: targeted_cases(ctx, pool, cplx))
+    mixed_stream(ctx)
 
 
 SEARCH_SECONDS = 50
@@ -1267,6 +1511,9 @@ def search(ctx, broken):
     try:
         kinds = ('pow2', 'pow3', 'mat', 'scale', 'l2sq', 'linf', 'inner', 'constf', 'zerof',
                  'repart', 'impart')
+        mixed_stream(ctx, count=False, deadline=deadline)
+        if PENDING or time.time() > deadline:
+            return
         for cplx in (False, True):
             seed = ctx.rng.getrandbits(32)
             steps = [lambda pool: targeted_cases(ctx, pool, cplx),
@@ -1284,6 +1531,12 @@ def search(ctx, broken):
 def replay(ctx, case):
     """Re-run one recorded case on the real code; returns a description if it still fails."""
     import ast as pyast
+    if case.get('field') == 'mixed':
+        sp, leaves = mixed_pool()
+        a = eval(case['ast'], {'__builtins__': {}})
+        xs = [complex(v) if 'j' in v else float(v) for v in case['x']]
+        problems, _, _ = run_mixed_case(a, sp, leaves, xs)
+        return '; '.join(problems)[:600] if problems else None
     cplx = case['field'] == 'complex'
     pool, spaces, pool_ids = setup(ctx, cplx, case['pool_seed'])
     c = {'ast': eval(case['ast'], {'np': np, 'Fraction': Fraction, '__builtins__': {}}),
